@@ -46,3 +46,19 @@ void h_filter(void) {
   VASSERT(o.f5 == node_bits(ii), "filter[0][0]");
   if (is_a) VWITNESS("a"); else VWITNESS("other");
 }
+
+/* object-shaped filters {"*":true} (STAR=1) / {"a":true} (STAR=0), built with the low-level API */
+#ifndef STAR
+#define STAR 1
+#endif
+void h_filter_obj(void) {
+  uint8_t key[2]; key[0] = vin_u8(); key[1] = 0;
+  struct S_FOut o; memset(&o, 0, sizeof o); w_filter_obj(STAR, key, &o);
+  VOBS(o.f0); VOBS(o.f1); VOBS(o.f2); VOBS(o.f5);
+  VASSERT(o.f0 == (1 | 4), "an object filter allows objects only");
+  if (STAR) VASSERT(o.f1 == 15, "\"*\" stands for any key");
+  else VASSERT(o.f1 == (key[0] == 'a' ? 15u : 0u), "only the listed member is kept");
+  VASSERT(o.f2 == 0, "an object filter applied to an ARRAY index selects nothing: the wildcard stands for member names, and the value being an array is not admitted by this filter (allowArray() is false)");
+  VASSERT(o.f5 == 0, "nor below it");
+  if (key[0] == 'a') VWITNESS("a"); else VWITNESS("other");
+}
